@@ -837,9 +837,24 @@ def p_comprehension(b):
 def p_flow(b):
     e1, d1, x1 = b.value()
     e2, d2, x2 = b.value()
-    form = b.draw(st.sampled_from(["for", "try", "isinstance", "ternary", "ifelse", "while", "with_open"]))
+    form = b.draw(st.sampled_from(["for", "try", "isinstance", "ternary", "ifelse", "while", "with_open", "elif_chain"]))
     t = b.fresh("fv")
-    if form == "for":
+    if form == "elif_chain":
+        # a three-branch chain inside a loop over values of different classes: the first test holds for some iterations
+        # only, the second for none, and the iteration that runs last takes the first branch
+        b.prog.features.add("elif-chain")
+        it = b.fresh("it")
+        ci = b.some_class()
+        if ci is not None and b.draw(st.booleans()):
+            seq, test1 = "(%s, %s)" % (LIT["str"][0], b.construct(("inst", ci.name))), "isinstance(%s, %s)" % (it, b.qual(ci.name))
+        else:
+            seq, test1 = "(%s, %s)" % (LIT["str"][0], LIT["int"][0]), "isinstance(%s, int)" % it
+        b.emit("for %s in %s:" % (it, seq),
+               "    if %s:" % test1, "        %s = %s" % (t, e1),
+               "    elif isinstance(%s, float):" % it, "        %s = 0.5" % t,
+               "    else:", "        %s = %s" % (t, e2))
+        b.bind(t, d1, False, ["isinstance", "elif-chain"])
+    elif form == "for":
         b.prog.features.add("for")
         b.emit("for %s in [%s, %s]:" % (t, e1, e1), "    pass")
         b.bind(t, d1, x1, ["for"])
